@@ -3,7 +3,7 @@
 ENGINEX = "{build}/harness/enginex/enginex"
 
 
-def enginex(prop, qs=16, ts=16, qb=300, tb=1800):
+def enginex(prop, qs=16, ts=16, qb=450, tb=1800):
     return {
         "name": "enginex", "dir": "enginex", "variant": "verif",
         "cmd": [ENGINEX, "--prop", prop, "--tier", "{tier}", "--shard", "{shard}", "--nshards", "{nshards}",
@@ -113,17 +113,27 @@ def worldx2(prop, qb, tb):
     }
 
 
-def worldx3(qb, tb):
+def worldx3(qb, tb, prop="C18"):
     return {
         "name": "worldx3", "dir": "worldx3", "variant": "verif",
-        "cmd": ["/usr/bin/python3", "{root}/harness/worldx3/worldx3.py", "--prop", "C18", "--tier", "{tier}", "--shard", "{shard}",
+        "cmd": ["/usr/bin/python3", "{root}/harness/worldx3/worldx3.py", "--prop", prop, "--tier", "{tier}", "--shard", "{shard}",
                 "--nshards", "{nshards}", "--out", "{out}", "--seed", "{seed}", "--budget", "{budget}"],
         "shards": {"quick": 16, "thorough": 16},
         "budget": {"quick": qb, "thorough": tb},
     }
 
 
-def kgx(prop="C10", qb=60, tb=600):
+def kgx(prop="C10", qb=60, tb=600, reuse=False):
+    return {
+        "name": "kgxr" if reuse else "kgx", "dir": "kgx", "variant": "verif",
+        "cmd": ["{build}/harness/kgx/kgx", "--prop", prop] + (["--extra", "reuse"] if reuse else []) + ["--tier", "{tier}", "--shard", "{shard}", "--nshards", "{nshards}",
+                "--out", "{out}", "--seed", "{seed}", "--budget", "{budget}"],
+        "shards": {"quick": 16, "thorough": 16},
+        "budget": {"quick": qb, "thorough": tb},
+    }
+
+
+def _kgx_old(prop="C10", qb=60, tb=600):
     return {
         "name": "kgx", "dir": "kgx", "variant": "verif",
         "cmd": ["{build}/harness/kgx/kgx", "--prop", prop, "--tier", "{tier}", "--shard", "{shard}", "--nshards", "{nshards}",
@@ -151,13 +161,13 @@ CHECKS = {
     "C01": {"level": "model_checking", "parts": [enginex("C01")], "assumptions": A_ENGINE},
     "C02": {"level": "model_checking", "parts": [enginex("C02")], "assumptions": A_ENGINE},
     "C03": {"level": "model_checking", "parts": [enginex("C03")], "assumptions": A_ENGINE},
-    "C04": {"level": "fault_enumeration", "parts": [crashx()], "assumptions": []},
-    "C05": {"level": "model_checking", "parts": [enginex("C05"), schedx("C05"), tsanx("C05"), kgx("C05", qb=120, tb=900)], "assumptions": A_ENGINE + A_SCHED},
+    "C04": {"level": "fault_enumeration", "parts": [crashx(), worldx3(120, 600, prop="C04")], "assumptions": []},
+    "C05": {"level": "model_checking", "parts": [enginex("C05"), schedx("C05"), tsanx("C05"), kgx("C05", qb=120, tb=900, reuse=True)], "assumptions": A_ENGINE + A_SCHED},
     "C06": {"level": "model_checking", "parts": [enginex("C06"), schedx("C06"), tsanx("C06")], "assumptions": A_ENGINE + A_SCHED},
     "C07": {"level": "model_checking", "parts": [enginex("C07")], "assumptions": A_ENGINE},
     "C08": {"level": "model_checking", "parts": [worldx("C08", 200, 1500)], "assumptions": []},
     "C09": {"level": "model_checking", "parts": [worldx("C09", 200, 1500)], "assumptions": []},
-    "C10": {"level": "model_checking", "parts": [worldx("C10", 150, 600), kgx()], "assumptions": []},
+    "C10": {"level": "model_checking", "parts": [worldx("C10", 150, 600), kgx(), kgx("C10", qb=120, tb=900, reuse=True)], "assumptions": []},
     "C11": {"level": "exploration", "parts": [parsex("C11"), worldx2("C11", 100, 1000)], "assumptions": []},
     "C12": {"level": "model_checking", "parts": [worldx2("C12", 150, 1100)], "assumptions": []},
     "C18": {"level": "model_checking", "parts": [worldx3(200, 1500)], "assumptions": []},
